@@ -63,3 +63,13 @@ Proof.
   intros H. unfold model_run, spec_run.
   apply (sim_run_rel trec astate trec_ops astate_ops R trec_astate_rel cfg steps [] []); [constructor | exact H].
 Qed.
+
+(* refresh needs an open search: without a browse and without a hostname resolver an iteration
+   sends no query at all, whatever is cached and whatever arrives *)
+Lemma no_search_no_queries c now nsb nsh recs c' o :
+  sim_iter trec trec_ops (mkCfg None None) c now nsb nsh recs = Ok (c', o) -> io_queries o = [].
+Proof.
+  unfold sim_iter. simpl. intros H.
+  destruct (ingest trec trec_ops c now recs); simpl in H; try discriminate.
+  inversion H; subst. reflexivity.
+Qed.
